@@ -295,7 +295,11 @@ func (e *Engine) release(g *gate) {
 	fault := ""
 	if g.kind == "store" {
 		for _, f := range e.faults {
-			if f.mode != "" && strings.Contains(g.desc, f.match) {
+			hit := strings.Contains(g.desc, f.match)
+			if strings.HasPrefix(f.match, "suffix=") {
+				hit = strings.HasPrefix(g.desc, "PatchTaskIns:") && strings.HasSuffix(g.desc, strings.TrimPrefix(f.match, "suffix="))
+			}
+			if f.mode != "" && hit {
 				f.seen++
 				if f.seen == f.nth {
 					fault = f.mode
